@@ -1,5 +1,288 @@
 import Sentinel.Drv.Common
-/-! Driver for C13 (stub: replaced by the property's real driver) -/
+import Sentinel.Model.Rules
+/-! Driver for C13: `model` = the rule managers of `Sentinel.Model.Rules`, `spec` = "filter valid of the latest
+load per resource", recomputed from the op history (`latest`, `buildList`, the probe functions).
+
+Ops (`<mod>` ∈ flow|iso|hot|cb|sys|out; a rule is `-` (nil) or comma-separated fields, `_` = empty string):
+```
+load <mod> <n> <rule>*n            => changed|unchanged|err|changed-err
+loadres <mod> <res> <n> <rule>*n   => (same)          (out: n ≤ 1, n = 0 is the nil rule)
+clear <mod>                        => ok|err
+clearres <mod> <res>               => ok|err
+get <mod>                          => [rule,…] sorted
+getres <mod> <res>                 => [rule,…] in order      (flow|iso|hot|cb)
+probe flow|iso <res> <batch> | probe cb <res> | probe sys    => pass|block|?
+```
+-/
 namespace Sentinel.Drv.C13
-def run (_mode : String) : IO Unit := IO.eprintln "C13: driver not implemented"
+open Sentinel.Rules Sentinel.Drv
+
+/-- `system_metric.TotalMemorySize` is host dependent; the generator only uses water marks ≤ 2^20 or ≥ 2^62 -/
+def totalMem : Int := 2 ^ 50
+
+def str (s : String) : String := if s = "_" then "" else s
+def ustr (s : String) : String := if s = "" then "_" else s
+
+def parseFlow (s : String) : Option FlowRule :=
+  match s.splitOn "," with
+  | [res, tcs, cb, th2, rel, ref, maxQ, wp, cf, st, lm, hm, ml, mh] => do
+    some { res := str res, tcs := ← tcs.toInt?, cb := ← cb.toInt?, th2 := ← th2.toInt?, rel := ← rel.toInt?, ref := str ref,
+           maxQ := ← maxQ.toNat?, wuPeriod := ← wp.toNat?, wuCf := ← cf.toNat?, statMs := ← st.toNat?,
+           lowMem := ← lm.toInt?, highMem := ← hm.toInt?, memLow := ← ml.toInt?, memHigh := ← mh.toInt? }
+  | _ => none
+def showFlow (r : FlowRule) : String :=
+  s!"{ustr r.res},{r.tcs},{r.cb},{r.th2},{r.rel},{ustr r.ref},{r.maxQ},{r.wuPeriod},{r.wuCf},{r.statMs},{r.lowMem},{r.highMem},{r.memLow},{r.memHigh}"
+
+def parseIso (s : String) : Option IsoRule :=
+  match s.splitOn "," with
+  | [res, m, th] => do some { res := str res, metric := ← m.toInt?, th := ← th.toNat? }
+  | _ => none
+def showIso (r : IsoRule) : String := s!"{ustr r.res},{r.metric},{r.th}"
+
+def parseHot (s : String) : Option HotRule :=
+  match s.splitOn "," with
+  | [res, m, cb, pi, pk, th, mq, bc, du, cap, it] => do
+    some { res := str res, metric := ← m.toInt?, cb := ← cb.toInt?, pidx := ← pi.toInt?, pkey := str pk, th := ← th.toInt?,
+           maxQ := ← mq.toInt?, burst := ← bc.toInt?, dur := ← du.toInt?, cap := ← cap.toInt?, items := ← it.toNat? }
+  | _ => none
+/-- canonical: `BurstCount` only means something (and is only compared by `Rule.Equals`) under Reject,
+    `MaxQueueingTimeMs` only under Throttling; the other one is printed as `*` -/
+def showHot (r : HotRule) : String :=
+  let mq := if r.cb = 1 then toString r.maxQ else "*"
+  let bc := if r.cb = 0 then toString r.burst else "*"
+  s!"{ustr r.res},{r.metric},{r.cb},{r.pidx},{ustr r.pkey},{r.th},{mq},{bc},{r.dur},{r.cap},{r.items}"
+
+def parseCb (s : String) : Option CbRule :=
+  match s.splitOn "," with
+  | [res, st, rt, mr, si, bk, mx, th2, pn] => do
+    some { res := str res, strategy := ← st.toNat?, retryMs := ← rt.toNat?, minReq := ← mr.toNat?, statMs := ← si.toNat?,
+           buckets := ← bk.toNat?, maxRt := ← mx.toNat?, th2 := ← th2.toInt?, probe := ← pn.toNat? }
+  | _ => none
+def showCb (r : CbRule) : String :=
+  s!"{ustr r.res},{r.strategy},{r.retryMs},{r.minReq},{r.statMs},{r.buckets},{r.maxRt},{r.th2},{r.probe}"
+
+def parseSys (s : String) : Option SysRule :=
+  match s.splitOn "," with
+  | [m, th2, st] => do some { metric := ← m.toNat?, th2 := ← th2.toInt?, strategy := ← st.toInt? }
+  | _ => none
+def showSys (r : SysRule) : String := s!"{r.metric},{r.th2},{r.strategy}"
+
+/-- `<pct2>;<recMs>;<cb rule or ->` -/
+def parseOut (s : String) : Option OutRule :=
+  match s.splitOn ";" with
+  | [p, rm, c] => do
+    let inner ← if c = "-" then some none else (parseCb c).map some
+    some { pct2 := ← p.toInt?, recMs := ← rm.toNat?, inner := inner }
+  | _ => none
+def showOut (r : OutRule) : String :=
+  s!"{r.pct2};{r.recMs};" ++ (match r.inner with | some c => showCb c | none => "-")
+
+/-- `<n> <rule>*n` → the list (nil = `-`) -/
+def parseList {R : Type} (p : String → Option R) (ts : List String) : Option (List (Option R)) :=
+  match ts with
+  | n :: rest => do
+    let n ← n.toNat?
+    if rest.length ≠ n then none else
+    rest.mapM fun t => if t = "-" then some none else (p t).map some
+  | [] => none
+
+def sortStrs (xs : List String) : List String := (xs.toArray.qsort (· < ·)).toList
+
+structure Slot (R : Type) where
+  M : RuleMod R
+  parse : String → Option R
+  shw : R → String
+  st : MState R := MState.init
+  L : String → List (Option R) := fun _ => []     -- spec side
+  Lkeys : List String := []
+
+section
+variable {R : Type} [DecidableEq R]
+
+def Slot.specEnf (sl : Slot R) (k : String) : List R := buildList sl.M k (sl.L k)
+
+/-- spec-side claim about the value reported by a load -/
+def claimAll (sl : Slot R) (rules : List (Option R)) : String :=
+  let M := sl.M
+  let ks := sl.Lkeys ++ ruleKeys M rules
+  if ks.all (fun k => sl.L k == proj M k rules) then
+    if ks.all (fun k => (sl.L k).map (normIn M k) == sl.L k) then "unchanged" else "?known:normalised-rule-reload:unchanged"
+  else if ks.all (fun k => (sl.L k).map (normIn M k) == proj M k rules) then "?" else "changed"
+
+def claimRes (sl : Slot R) (res : String) (rules : List (Option R)) : String :=
+  let M := sl.M
+  if res = "" then "err"
+  else if rules = [] then (if sl.L res = [] then "?known:empty-resource-reload:unchanged" else "changed")
+  else if sl.L res == rules then
+    if (sl.L res).map (normIn M res) == sl.L res then "unchanged" else "?known:normalised-rule-reload:unchanged"
+  else if (sl.L res).map (normIn M res) == rules then "?" else "changed"
+
+/-- inside the region of `cb-getter-reports-unbuilt`: some valid rule handed over for `k` got no breaker -/
+def unbuilt (sl : Slot R) (k : String) : Bool :=
+  sl.M.pubValid && (validList sl.M (sl.L k)).any fun r => !built sl.M k r
+
+def okOrErr (o : Outcome) : String := if o == .err || o == .changedErr || o == .panic then "err" else "ok"
+
+/-- the ops shared by the four map-shaped managers; `none` = not one of them -/
+def Slot.handle (sl : Slot R) (spec : Bool) (ts : List String) : Option (Slot R × Option String) :=
+  let M := sl.M
+  match ts with
+  | "load" :: _ :: rest => some <|
+    match parseList sl.parse rest with
+    | none => (sl, some "bad-op")
+    | some rules =>
+      if spec then
+        let c := claimAll sl rules
+        ({ sl with L := latestStep M sl.L (.loadAll rules), Lkeys := ruleKeys M rules }, some c)
+      else
+        let (s', o) := loadAll M sl.st rules
+        ({ sl with st := s' }, some o.toString)
+  | "loadres" :: _ :: res :: rest => some <|
+    match parseList sl.parse rest with
+    | none => (sl, some "bad-op")
+    | some rules =>
+      let res := str res
+      if spec then
+        let c := claimRes sl res rules
+        ({ sl with L := latestStep M sl.L (.loadRes res rules), Lkeys := res :: sl.Lkeys }, some c)
+      else
+        let (s', o) := loadRes M sl.st res rules
+        ({ sl with st := s' }, some o.toString)
+  | ["clear", _] => some <|
+    if spec then ({ sl with L := fun _ => [], Lkeys := [] }, some "ok")
+    else let (s', o) := loadAll M sl.st []; ({ sl with st := s' }, some (okOrErr o))
+  | ["clearres", _, res] => some <|
+    let res := str res
+    if spec then ({ sl with L := latestStep M sl.L (.clearRes res) }, some (if res = "" then "err" else "ok"))
+    else let (s', o) := loadRes M sl.st res []; ({ sl with st := s' }, some (okOrErr o))
+  | ["get", _] => some <|
+    if spec then
+      let ks := sl.Lkeys.eraseDups
+      let v := showList (sortStrs ((ks.flatMap sl.specEnf).map sl.shw))
+      (sl, some (if ks.any (unbuilt sl) then "?known:cb-getter-reports-unbuilt:" ++ v else v))
+    else (sl, some (showList (sortStrs ((getAll sl.st).map sl.shw))))
+  | ["getres", _, res] => some <|
+    let res := str res
+    if spec then
+      let v := showList ((sl.specEnf res).map sl.shw)
+      (sl, some (if unbuilt sl res then "?known:cb-getter-reports-unbuilt:" ++ v else v))
+    else (sl, some (showList ((getRes sl.st res).map sl.shw)))
+  | _ => none
+
+/-- the rules a probe on `res` meets -/
+def Slot.enfOf (sl : Slot R) (spec : Bool) (res : String) : List R := if spec then sl.specEnf res else sl.st.enf res
+
+end
+
+structure St where
+  flow : Slot FlowRule := { M := flowMod totalMem, parse := parseFlow, shw := showFlow }
+  iso : Slot IsoRule := { M := isoMod, parse := parseIso, shw := showIso }
+  hot : Slot HotRule := { M := hotMod, parse := parseHot, shw := showHot }
+  cb : Slot CbRule := { M := cbMod, parse := parseCb, shw := showCb }
+  sys : SysState := SysState.init
+  sysL : List (Option SysRule) := []        -- spec side: latest list handed over
+  sysSeen : Bool := false                   -- spec side: some load/clear of system happened in this case
+  out : OState := OState.init
+  outL : String → Option OutRule := fun _ => none
+  outKeysL : List String := []
+  outTaint : List String := []              -- spec side: keys whose latest rule came through the per-resource path and was refused
+
+def pb (b : Bool) : String := if b then "block" else "pass"
+
+def stepSys (spec : Bool) (s : St) (ts : List String) : St × Option String :=
+  match ts with
+  | "load" :: _ :: rest =>
+    match parseList parseSys rest with
+    | none => (s, some "bad-op")
+    | some rules =>
+      if spec then
+        let c := if s.sysL == rules then (if rules.isEmpty && !s.sysSeen then "?" else "unchanged") else "changed"
+        ({ s with sysL := rules, sysSeen := true }, some c)
+      else let (s', o) := loadSys s.sys rules; ({ s with sys := s' }, some o.toString)
+  | ["clear", _] =>
+    if spec then ({ s with sysL := [], sysSeen := true }, some "ok")
+    else let (s', o) := loadSys s.sys []; ({ s with sys := s' }, some (okOrErr o))
+  | ["get", _] =>
+    let enf := if spec then sysBuild s.sysL else s.sys.enf
+    (s, some (showList (sortStrs (enf.map showSys))))
+  | ["probe", _] =>
+    let enf := if spec then sysBuild s.sysL else s.sys.enf
+    (s, some (pb (sysProbe enf)))
+  | _ => (s, some "bad-op")
+
+def parseOne (ts : List String) : Option (Option OutRule) :=
+  match parseList parseOut ts with
+  | some [] => some none
+  | some [o] => some o
+  | _ => none
+
+def stepOutM (spec : Bool) (s : St) (ts : List String) : St × Option String :=
+  match ts with
+  | "load" :: _ :: rest =>
+    match parseList parseOut rest with
+    | none => (s, some "bad-op")
+    | some rules =>
+      if spec then
+        let ks := s.outKeysL ++ outKeys rules
+        let c := if ks.all (fun k => s.outL k == outProj k rules) then "unchanged" else "changed"
+        let c := if s.outTaint.isEmpty then c else "?known:outlier-invalid-keeps-old:" ++ c
+        ({ s with outL := latestOutStep s.outL (.loadAll rules), outKeysL := outKeys rules, outTaint := taintStep s.outTaint (.loadAll rules) }, some c)
+      else let (s', o) := loadAllOut s.out rules; ({ s with out := s' }, some o.toString)
+  | "loadres" :: _ :: res :: rest =>
+    match parseOne rest with
+    | none => (s, some "bad-op")
+    | some rule =>
+      let res := str res
+      if spec then
+        let refused := outRefused rule
+        let k := fun (c : String) => if refused || s.outTaint.contains res then "?known:outlier-invalid-keeps-old:" ++ c else c
+        let c := if res = "" then "err"
+                 else if rule.isNone then (if (s.outL res).isNone then "?known:empty-resource-reload:unchanged" else "changed")
+                 else if s.outL res == rule then k "unchanged" else k "changed"
+        if res = "" then (s, some c) else
+        ({ s with outL := upd s.outL res rule, outKeysL := res :: s.outKeysL,
+                  outTaint := taintStep s.outTaint (.loadRes res rule) }, some c)
+      else let (s', o) := loadResOut s.out res rule; ({ s with out := s' }, some o.toString)
+  | ["clear", _] =>
+    if spec then ({ s with outL := fun _ => none, outKeysL := [], outTaint := [] }, some "ok")
+    else let (s', o) := loadAllOut s.out []; ({ s with out := s' }, some (okOrErr o))
+  | ["clearres", _, res] =>
+    let res := str res
+    if spec then
+      if res = "" then (s, some "err") else
+      ({ s with outL := upd s.outL res none, outTaint := taintStep s.outTaint (.loadRes res none) }, some "ok")
+    else let (s', o) := loadResOut s.out res none; ({ s with out := s' }, some (okOrErr o))
+  | ["get", _] =>
+    if spec then
+      let v := showList (sortStrs ((s.outKeysL.eraseDups.filterMap fun k => outAccept (s.outL k)).map showOut))
+      (s, some (if s.outTaint.isEmpty then v else "?known:outlier-invalid-keeps-old:" ++ v))
+    else (s, some (showList (sortStrs ((getAllOut s.out).map showOut))))
+  | _ => (s, some "bad-op")
+
+def step (spec : Bool) (s : St) (ts : List String) (_ : String) : St × Option String :=
+  match ts with
+  | ["probe", "flow", res, b] =>
+    match b.toNat? with
+    | some b => (s, some (match flowProbe (s.flow.enfOf spec (str res)) b with | some x => pb x | none => "?"))
+    | none => (s, some "bad-op")
+  | ["probe", "iso", res, b] =>
+    match b.toNat? with
+    | some b => (s, some (pb (isoProbe (s.iso.enfOf spec (str res)) b)))
+    | none => (s, some "bad-op")
+  | ["probe", "cb", res] => (s, some (pb (cbProbe (s.cb.enfOf spec (str res)))))
+  | _ :: "flow" :: _ => match s.flow.handle spec ts with
+      | some (sl, r) => ({ s with flow := sl }, r) | none => (s, some "bad-op")
+  | _ :: "iso" :: _ => match s.iso.handle spec ts with
+      | some (sl, r) => ({ s with iso := sl }, r) | none => (s, some "bad-op")
+  | _ :: "hot" :: _ => match s.hot.handle spec ts with
+      | some (sl, r) => ({ s with hot := sl }, r) | none => (s, some "bad-op")
+  | _ :: "cb" :: _ => match s.cb.handle spec ts with
+      | some (sl, r) => ({ s with cb := sl }, r) | none => (s, some "bad-op")
+  | _ :: "sys" :: _ => stepSys spec s ts
+  | _ :: "out" :: _ => stepOutM spec s ts
+  | _ => (s, some "bad-op")
+
+def run (mode : String) : IO Unit :=
+  loop ({} : St) (step (mode == "spec"))
+
 end Sentinel.Drv.C13
